@@ -31,6 +31,7 @@ fn fuzz_opts() -> GraphOpts {
         decoys: true,
         mark_all: false,
         sized: true,
+        wide: true,
     }
 }
 
